@@ -8,6 +8,7 @@
 package table
 
 import (
+	"sync/atomic"
 	"time"
 
 	"github.com/named-data/ndnd/fw/core"
@@ -74,13 +75,21 @@ func Configure() {
 	}
 }
 
+// csCapacityMgmt holds the capacity set through management (+1, so that zero
+// means "not set"). Management and the forwarding threads run on different
+// goroutines, so it is accessed atomically.
+var csCapacityMgmt atomic.Int64
+
 // SetCsCapacity sets the CS capacity from management.
 func SetCsCapacity(capacity int) {
-	csCapacity = capacity
+	csCapacityMgmt.Store(int64(capacity) + 1)
 }
 
 // CsCapacity returns the CS capacity
 func CsCapacity() int {
+	if v := csCapacityMgmt.Load(); v != 0 {
+		return int(v - 1)
+	}
 	return csCapacity
 }
 
